@@ -35,7 +35,7 @@ RULE = ("state = one pool of shared record objects: a vector, the modules of a "
 ASSUMPTIONS = [
     "an absent reference list is equivalent to an empty one (the statement says so)",
     "faults are injected by a harness-side subclass overriding target_sequence on the same record object",
-    "citations well-formed and in range",
+    "citations well-formed; in a fifth of the pools one record carries a citation index past the end of its reference list (the call may then fail with IndexError, purity is still required)",
 ]
 LEVEL_TEXT = ("Fault enumeration: for every generated pool the crash points of the "
               "walk (every j from 0 to the chain length, two exception kinds) and the "
@@ -64,6 +64,26 @@ class Pool(object):
         v2 = plasmid.build_vector(g, dict(ex["v2_body"], o_down=bv.down, o_up=bv.down, id="vec2"))
         self.builts = [bv, v2] + bms + [dup, left]
         pspecs = [spec["vector"], ex["v2_body"]] + spec["modules"] + [ex["dup_body"], ex["left_body"]]
+        self.dangling = False
+        if base.get("dangling") is not None:
+            # one record carries a citation index past the end of its reference
+            # list, listed before a well-formed citation (malformed input: the
+            # call may fail, the inputs must still come back untouched)
+            import copy
+            who, extra = base["dangling"]
+            who %= len(pspecs)
+            p = copy.deepcopy(pspecs[who])
+            refs = list(p.get("refs") or [0])
+            p["refs"] = refs
+            n = self.builts[who].n
+            lab = self.builts[who].id
+            p["feats"] = ([{"type": "misc_feature", "arcs": [[0, 1, 1, "simple"]],
+                            "quals": {"label": [lab + "_dangling"]}, "cite": [len(refs) + 1 + extra % 3]}]
+                          + list(p.get("feats") or [])
+                          + [{"type": "misc_feature", "arcs": [[min(1, n - 1), 1, 1, "simple"]],
+                              "quals": {"label": [lab + "_after"]}, "cite": [1]}])
+            pspecs[who] = p
+            self.dangling = True
         self.records = [annot.participant_record(b, p) for b, p in zip(self.builts, pspecs)]
         self.vectors = [V(self.records[0]), V(self.records[1])]
         self.modules = [M(r) for r in self.records[2:]]
@@ -112,6 +132,10 @@ class Pool(object):
             except RuntimeError as e:
                 if fault and str(e) == "injected fault":
                     return ("error", "RuntimeError", "injected fault")
+                raise
+            except IndexError:
+                if self.dangling:
+                    return ("error", "IndexError", "citation index out of range")
                 raise
         unused = sorted(m.record.id for x in w if isinstance(x.message, errors.UnusedModules)
                         for m in x.message.remaining)
@@ -191,6 +215,8 @@ def base_spec(draw, max_chain=4):
         "left_start": left_start, "left_end": draw(gen.dna_text(g.k, g.k)),
     }
     base = {"assembly": asm, "extras": extras}
+    if draw(st.integers(0, 4)) == 0:
+        base["dangling"] = [draw(st.integers(0, 9)), draw(st.integers(0, 5))]
     # annotate the extras like the other participants
     for key in ("dup_body", "left_body", "v2_body"):
         p = extras[key]
